@@ -380,6 +380,18 @@ static std::string run_dl(const std::string& ops)
                                 res = "raise";
                         }
                     }
+                    else if (t[0] == "asgn")
+                    {
+                        std::size_t p2 = std::stoul(t[2]);
+                        if (!alive(p2))
+                            res = "skip";
+                        else if (objs[o]->index() != objs[p2]->index())
+                            res = "kind-mismatch";
+                        else if (auto d = std::get_if<nitro::dl::dl>(objs[o].get()))
+                            *d = std::get<nitro::dl::dl>(*objs[p2]);
+                        else
+                            std::get<Sym>(*objs[o]) = std::get<Sym>(*objs[p2]);
+                    }
                     else if (t[0] == "copy")
                         objs.push_back(std::make_unique<Obj>(*objs[o]));
                     else if (t[0] == "del")
